@@ -49,4 +49,9 @@ def run(ctx):
     # R4: the date rows of the conditional table (includes sub-second modification times and the equal-second requests)
     C04.r1_table(ctx)
     r5_roundtrip(ctx)
+    # ... and the served tag is found again in the list the client echoes: the tag-list tokeniser ends an element at the next
+    # '"' (entity-tags know no escapes), skips only OWS and commas (C04.R5's rules, run here for the round-trip clause)
+    from . import etaglist
+    etaglist.tokeniser(ctx, "C14.R5.list")
+    etaglist.list_constructor(ctx, "C14.R5.list")
     SM.c05_gate(ctx, M)
